@@ -514,6 +514,15 @@ def family(tier):
     add('len_gap_inline', [Packet('Root', [F('lengthof', 'BodyLength', typ='u32', target='Body', spelling='prefixed'), F('basic', 'SeqNo', typ='u64'),
                                            F('inline', 'Body', fields=[F('dyn', 'S', spelling='string'), F('basic', 'V', typ='u16')]), F('basic', 'Tail', typ='u8')], root=True)],
         opts(), fam='lengthof')
+    # object targets made of fixed-width fields only - with and without lists among them (a list is never fixed-size)
+    for le in ORDERS[:2]:
+        add('len_obj_fixedonly_%s' % le, [Packet('Root', [F('lengthof', 'BodyLength', typ='u16', target='Body', spelling='inline'), F('obj', 'Body', typ='Flat')], root=True),
+                                          Packet('Flat', [F('basic', 'A', typ='u32'), F('fixed', 'Sym', n=4), F('basic', 'B', typ='u8')])], opts(LittleEndian=le), fam='lengthof')
+        add('len_obj_numlists_%s' % le, [Packet('Root', [F('lengthof', 'BodyLength', typ='u16', target='Body', spelling='prefixed'), F('obj', 'Body', typ='Book')], root=True),
+                                         Packet('Book', [F('basic', 'A', typ='u32'), F('basic', 'Levels', typ='u16', repeat=True), F('fixed', 'Tags', n=4, repeat=True),
+                                                         F('obj', 'Leg', typ='Leg')]),
+                                         Packet('Leg', [F('basic', 'Q', typ='u64', repeat=True), F('fixed', 'Z', n=2, z=True)])], opts(LittleEndian=le), fam='lengthof',
+            note='the object target has only fixed-width ELEMENT types, but some of them repeated')
     add('len_inlineobj', [Packet('Root', [F('lengthof', 'BodyLength', typ='u16', target='Body', spelling='inline'),
                                            F('inline', 'Body', fields=[F('dyn', 'S', spelling='string'), F('basic', 'V', typ='u32', repeat=True)])], root=True)],
         opts(LittleEndian='true'), fam='lengthof')
@@ -538,6 +547,11 @@ def family(tier):
         add('disp_hi_%s' % kt,
             [Packet('Root', [F('basic', 'Kind', typ=kt), F('match', 'Payload', key='Kind', pairs=[([1], 'Alpha'), (hi, 'Beta'), ([3], 'Gamma')])], root=True), pa, pb, pc],
             opts(), fam='dispatch', note='keys at and above the signed boundary of the key type')
+    for le in ORDERS[:2]:
+        add('disp_len_%s' % le,
+            [Packet('Root', [F('basic', 'Kind', typ='u8'), F('lengthof', 'Len', typ='u16', target='Payload', spelling='inline'),
+                             F('match', 'Payload', key='Kind', pairs=[([1], 'Alpha'), ([2, 7], 'Beta'), ([100], 'Gamma')])], root=True), pa, pb, pc],
+            opts(LittleEndian=le), fam='dispatch', note='the match is measured by a length-of field: a length of zero (field-less packet, or chosen by the peer) must not switch the dispatch off')
     add('disp_nonroot_before', [Packet('Root', [F('basic', 'Len', typ='u16'), F('obj', 'Env', typ='Envelope'), F('basic', 'Tail', typ='u32')], root=True), pa, pb,
                                 Packet('Envelope', [F('basic', 'T', typ='u8'), F('match', 'Inner', key='T', pairs=[([1], 'Alpha'), ([2], 'Beta')])])],
         opts(), fam='dispatch', note='a non-root packet holding a match is embedded by the root; its payload packets are declared before it')
